@@ -398,6 +398,10 @@ class RegexParser:
             }
             if escaped in escape_map:
                 return escape_map[escaped]
+            if escaped == "x":
+                return self._parse_hex_escape().char
+            if escaped == "u":
+                return self._parse_unicode_escape().char
             if escaped in "dDwWsS":
                 # These need special handling - return as-is for now
                 # The compiler will expand them
